@@ -2,15 +2,37 @@
 from runner import H
 
 MZD = ['mem/mem_zero_detect_base.c', 'include/unaligned.h']
+# object_bits=8: the loop contract havocs the walking pointer `c`; with >= 10 object bits the
+# propositional reduction of this harness runs out of memory, with 8/9 it takes about a minute.
 
 HARNESSES = [
+    # (a) soundness + contrapositive + n==0 + empty frame + exact read range, every n <= 2^47-1, every position
     H('mzd_sound', ['C20'], 'mem/zero_detect.c', MZD, enforce='mem_zero_detect_base', also=['C05', 'C15'],
-      timeout=900, expect=['postcondition', 'loop_invariant_step', 'loop_decreases'],
-      replay=('mem.c', 'mzd_sound')),
-    H('mzd_complete', ['C20'], 'mem/zero_detect.c', MZD, enforce='mem_zero_detect_base', defines=['MZD_COMPLETE'],
-      timeout=900, expect=['postcondition', 'loop_invariant_step'], replay=('mem.c', 'mzd_complete')),
+      object_bits=8, timeout=900, expect=['postcondition', 'loop_invariant_step', 'loop_decreases'],
+      replay=('mem.c', 'mzd_sound'),
+      bounds='n <= 2^47-1 (object-size limit of the memory model); no unwinding'),
+    # (b) completeness: calloc'd (all-zero) region of symbolic size n  ==>  returns 0
     H('mzd_calloc', ['C20'], 'mem/zero_detect.c', MZD, enforce='mem_zero_detect_base', defines=['MZD_CALLOC'],
-      timeout=900, expect=['postcondition', 'loop_invariant_step'], replay=('mem.c', 'mzd_complete')),
-    H('mzd_len0', ['C20'], 'mem/zero_detect.c', MZD, enforce='mem_zero_detect_base',
-      timeout=300, expect=['postcondition', 'assertion'], replay=('mem.c', 'mzd_len0')),
+      object_bits=8, timeout=900, expect=['postcondition', 'loop_invariant_step', 'loop_decreases'],
+      replay=('mem.c', 'mzd_complete'),
+      trusted=['CBMC library model of calloc (zero-initialised object of symbolic size)'],
+      bounds='n <= 2^47-1; no unwinding'),
+    # (c) n == 0 with an invalid pointer: returns 0 and dereferences nothing
+    H('mzd_len0', ['C20'], 'mem/zero_detect.c', MZD, enforce='mem_zero_detect_base', defines=['MZD_LEN0'],
+      object_bits=8, timeout=300, expect=['postcondition', 'assertion'], replay=('mem.c', 'mzd_len0')),
 ]
+
+PROP_TEXT = {
+    'C20': {
+        'assumptions': [
+            'region length n <= 2^47-1 (CBMC object-size limit at the chosen pointer encoding); alignment of buf is not modelled '
+            '(the C code loads through memcpy, so alignment cannot change its result)',
+            'completeness ("all bytes zero ==> 0") is proved on a calloc()ed region of symbolic size, i.e. relies on the CBMC calloc model; '
+            'soundness ("0 ==> every byte zero", "any non-zero byte ==> -1") is proved on an arbitrary is_fresh region of exactly n bytes',
+        ],
+        'not_decided': [
+            'mem_zero_detect_{sse,avx,avx2,avx512} and the mem_zero_detect dispatcher (NASM): every "for every ISA variant" clause',
+            'guard-page behaviour of the assembly variants (the native replay uses PROT_NONE guard pages, but only for the portable routine)',
+        ],
+    },
+}
